@@ -189,7 +189,7 @@ struct Exporter {
     J::Object o; const FunctionDecl* P = patternOf(F);
     o["id"] = idOf(F); o["qname"] = qname(F); o["name"] = F->getNameAsString(); o["loc"] = loc(F->getLocation()); o["pat"] = loc(P->getLocation()); o["patq"] = qname(P);
     o["instantiated"] = (P != F) || F->isTemplateInstantiation();
-    o["ret"] = ty(F->getReturnType());
+    o["ret"] = ty(F->getReturnType()); o["defaulted"] = F->isDefaulted(); o["implicit"] = F->isImplicit(); o["deleted"] = F->isDeleted();
     J::Array ps; for (auto* p : F->parameters()) { J::Object po; po["n"] = p->getNameAsString(); po["d"] = idOf(p); po["t"] = ty(p->getType()); po["ts"] = tySugar(p->getType()); ps.push_back(std::move(po)); } o["params"] = std::move(ps);
     if (auto* TA = F->getTemplateSpecializationArgs()) { J::Array ta; for (auto& a : TA->asArray()) { std::string s; llvm::raw_string_ostream os(s); a.print(PP, os, true); ta.push_back(os.str()); } o["targs"] = std::move(ta); }
     const char* kind = "function";
